@@ -27,9 +27,13 @@ Fixpoint nodup_keys (m : nsmap) : bool :=
   | [] => true
   | (k, _) :: r => negb (existsb (fun e => okey_eqb (fst e) k) r) && nodup_keys r
   end.
+(* QNameConverter.resolve strips with str.strip(): a name that begins or ends with a
+   character Python counts as whitespace (U+1680 is an XML NameStartChar) loses it *)
+Definition name_edges_ok (s : str) : bool :=
+  negb (py_isspace (hd 0 s)) && negb (py_isspace (last s 0)).
 (* prefixes are names (None = the default namespace) *)
 Definition wf_prefix_key (k : option str) : bool :=
-  match k with None => true | Some p => is_ncname p end.
+  match k with None => true | Some p => is_ncname p && name_edges_ok p end.
 Definition wf_nsmap (m : nsmap) : bool := forallb (fun e => wf_prefix_key (fst e)) m && nodup_keys m.
 
 (* clause 1 (Clark notation, ns_map=None): is_uri must accept the namespace name *)
@@ -48,20 +52,15 @@ Definition qname_rt_clause_clark (uri : option str) (m : option nsmap) : bool :=
   match m, uri with None, Some u => clark_uri_ok u | _, _ => true end.
 Definition qname_rt_clause_default (uri : option str) (m : option nsmap) : bool :=
   match m, uri with Some mm, None => no_default_ns mm | _, _ => true end.
+(* clause 3 (the local part keeps its first and last character under str.strip()) *)
+Definition qname_rt_clause_edges (local : str) : bool := name_edges_ok local.
 Definition qname_rt_guard (uri : option str) (local : str) (m : option nsmap) : bool :=
-  qname_rt_inputs_ok uri local m && qname_rt_clause_clark uri m && qname_rt_clause_default uri m.
+  qname_rt_inputs_ok uri local m && qname_rt_clause_clark uri m && qname_rt_clause_default uri m
+  && qname_rt_clause_edges local.
 
-(* clause 3 (accepting xs:QName): no character that XML allows in a name but
-   str.isalpha / str.isdigit / NCNAME_PUNCTUATION do not cover *)
-Definition py_covers_start (c : N) : bool := negb (xml_ncname_start c) || ncname_start c.
-Definition py_covers_char (c : N) : bool := negb (xml_ncname_char c) || ncname_char c.
-Definition qname_py_guard (local : str) : bool :=
-  match local with
-  | [] => true
-  | c :: r => py_covers_start c && forallb py_covers_char r
-  end.
-Definition qname_sp_py_guard (q : qname_sp) : bool :=
-  qname_py_guard (q_local q) && match q_prefix q with None => true | Some p => qname_py_guard p end.
+(* accepting xs:QName: the same clause for the spelled prefix and local part *)
+Definition qname_sp_edge_guard (q : qname_sp) : bool :=
+  name_edges_ok (q_local q) && match q_prefix q with None => true | Some p => name_edges_ok p end.
 
 (* ---- reading a text with the specification's own grammar ------------------------
    (the reading is always re-printed and compared with the text, so these
